@@ -95,6 +95,11 @@ fn dispatch(op: &str, args: &[&str]) -> String {
         "repeat_media" => op_repeat::<Media>(args),
         "repeat_master" => op_repeat::<Master>(args),
         "bmedia" => builder::op_bmedia(args),
+        "bmaster" => builder::op_bmaster(args),
+        "bown" => builder::op_bown(args),
+        "media_preset" => builder::op_media_preset(args),
+        "media_twice" => op_media_twice(args),
+        "media_remove" => op_media_remove(args),
         "laws" => laws::op_laws(args),
         "assoc" => laws::op_assoc(args),
         "btag" => builder::op_btag(args),
@@ -171,7 +176,7 @@ pub(crate) trait Kind: 'static {
 }
 
 pub(crate) struct Media;
-struct Master;
+pub(crate) struct Master;
 
 impl Kind for Media {
     type P<'a> = MediaPlaylist<'a>;
@@ -326,6 +331,65 @@ fn op_media_excess(args: &[&str]) -> String {
     roundtrip::<Media>(&text, Some(d))
 }
 
+/// `media_twice TEXT1 TEXT2`: one `MediaPlaylist::builder()`, `parse(TEXT1)` (its
+/// result, `Ok` or `Err`, is dropped), then `parse(TEXT2)` on the same builder.
+/// `badinput` | `panic` (either parse) | `err` | `ok (mres …)` as the `media` op
+/// prints the value of the second parse (the re-parse is a plain `try_from`).
+fn op_media_twice(args: &[&str]) -> String {
+    let (Some(t1), Some(t2)) = (text_arg(args, 0), text_arg(args, 1)) else {
+        return BADINPUT.to_string();
+    };
+    if args.len() != 2 {
+        return BADINPUT.to_string();
+    }
+    let mut b = MediaPlaylist::builder();
+    if guard(|| {
+        let _ = b.parse(&t1);
+    })
+    .is_none()
+    {
+        return PANIC.to_string();
+    }
+    let second = guard(|| b.parse(&t2));
+    match second {
+        None => PANIC.to_string(),
+        Some(Err(_)) => ERR.to_string(),
+        Some(Ok(x)) => value_result::<Media>(&x, None, t2.len()),
+    }
+}
+
+/// `media_remove TEXT I1 I2 ...`: `MediaPlaylist::try_from(TEXT)`, then
+/// `playlist.segments.remove(i)` (public `StableVec` field) for every index in
+/// order; a `None` result is ignored, and so is an index `StableVec::remove`
+/// rejects by panicking (out of bounds): that call is guarded and counts as a
+/// no-op.  `badinput` | `panic` | `err` | `ok (mres …)` of the mutated value
+/// (dump, `required_version()`, `to_string()`, plain `try_from` of that text).
+fn op_media_remove(args: &[&str]) -> String {
+    let Some(text) = text_arg(args, 0) else {
+        return BADINPUT.to_string();
+    };
+    let mut indices: Vec<usize> = Vec::with_capacity(args.len().saturating_sub(1));
+    for i in 1..args.len() {
+        let Some(index) = num_arg::<usize>(args, i) else {
+            return BADINPUT.to_string();
+        };
+        indices.push(index);
+    }
+    let mut x = match guard(|| MediaPlaylist::try_from(text.as_str())) {
+        None => return PANIC.to_string(),
+        Some(Err(_)) => return ERR.to_string(),
+        Some(Ok(x)) => x,
+    };
+    for index in indices {
+        // Bounds are checked before anything is touched, so the value is
+        // unchanged when the call panics.
+        let _ = guard(|| {
+            let _ = x.segments.remove(index);
+        });
+    }
+    value_result::<Media>(&x, None, text.len())
+}
+
 /// `ok MEDIA` | `err` | `panic`
 fn op_media_fromstr(args: &[&str]) -> String {
     let Some(text) = text_arg(args, 0) else {
@@ -352,21 +416,26 @@ fn op_own<K: Kind>(args: &[&str]) -> String {
         Some(None) => return ERR.to_string(),
         Some(Some(x)) => x,
     };
+    own_result::<K>(&x)
+}
+
+/// `ok (own …)` for a value that was obtained somehow (`own_media`, `own_master`, `bown`).
+pub(crate) fn own_result<K: Kind>(x: &K::P<'_>) -> String {
     let c = x.clone();
     let o = K::into_owned(x.clone());
 
     let mut out = String::from("ok (own ");
-    observe::b(&mut out, x == c);
+    observe::b(&mut out, *x == c);
     out.push(' ');
-    observe::b(&mut out, K::eq_owned(&x, &o));
+    observe::b(&mut out, K::eq_owned(x, &o));
     out.push(' ');
-    K::dump(&x, &mut out);
+    K::dump(x, &mut out);
     out.push(' ');
     K::dump(&c, &mut out);
     out.push(' ');
     K::dump(&o, &mut out);
     out.push(' ');
-    push_text(&mut out, &display_guarded(&x));
+    push_text(&mut out, &display_guarded(x));
     out.push(' ');
     push_text(&mut out, &display_guarded(&c));
     out.push(' ');
